@@ -63,6 +63,8 @@ var shapes = []shape{
 	{Name: "plain-yield-recur-then-guarded-yield", Gen: "gen := <{|i| yield i; recur(i + 1); yield 99 if i < 3}>"},
 	// the recur is deferred: it runs when the body is left, also when the guard stops the step
 	{Name: "deferred-recur", Gen: "gen := <{|i| defer recur(i + 1); yield i if i < 3}>"},
+	// ... and the guard is true again for later arguments: the step after a stop goes on (the arguments of the most recent recur)
+	{Name: "deferred-recur-guard-true-again", Gen: "gen := <{|i| defer recur(i + 1); yield i if i % 3 != 2}>"},
 	{Name: "nil-first-yield", Gen: "gen := <{|i| yield [nil, i][i % 2] if i < 4; yield 99; recur(i + 1); 77}>"},
 }
 
@@ -134,6 +136,13 @@ func (s *mstate) next(it *mit) (int, bool) {
 		v := it.i
 		it.i++
 		if v < 3 {
+			return v, false
+		}
+		return 0, true
+	case "deferred-recur-guard-true-again":
+		v := it.i
+		it.i++
+		if v%3 != 2 {
 			return v, false
 		}
 		return 0, true
